@@ -163,8 +163,9 @@ PROPS['C03'] = {
     'assumptions': ['quarter turns in planes containing z keep the in-plane angle (library convention, DESIGN 7)'],
     'level_text': 'Keypoint position, angle (mod 2pi, always in [0,2pi)) and scale are proved to follow the same lattice '
                   'descriptor as the voxels for flips, Flip, Transpose, RandomRotate90 and PadIfNeeded, and the '
-                  'visibility filter is proved to keep exactly the in-frame keypoints in order; resampling / rotation '
-                  'bounds are explored on the implementation.',
+                  'visibility filter is proved to keep exactly the in-frame keypoints in order; crop_and_pad_keypoint is '
+                  'proved to shift and then zoom EVERY axis (keep_size); resampling / rotation bounds are explored on the '
+                  'implementation.',
     'level_note': 'Trusted: as C02. Resampling transforms: search oracle only (partial).',
 }
 PROPS['C01'] = {
@@ -173,8 +174,9 @@ PROPS['C01'] = {
                     'search oracle with nearest interpolation'],
     'level_text': 'For the lattice classes the mask path is proved identical to the image path (inherited path = image '
                   'path with interpolation 0, regenerated from DualTransform.apply_to_mask) or to share offsets and '
-                  'shape with it (PadIfNeeded); masks / additional targets and resampling transforms are explored on '
-                  'labelled volumes.',
+                  'shape with it (PadIfNeeded); Resize / RandomScale (generated over the SciPy-zoom model) return image and '
+                  'mask of one shape for every interpolation order; masks / additional targets and the other resampling '
+                  'transforms are explored on labelled volumes.',
     'level_note': 'Trusted: as C02; target dispatch (masks list, additional targets) is checked on the implementation.',
 }
 PROPS['C07'] = {
@@ -185,8 +187,10 @@ PROPS['C07'] = {
     'assumptions': ['target-size arithmetic of the SciPy-based resizes is explored, not proved'],
     'level_text': 'Flips, transpose, quarter turns, crop windows (inside the volume and of the requested size for every '
                   'draw in [0,1)), centre crop and constant padding are theorems about the generated image paths for '
-                  'every input view; resize family sizes, PadIfNeeded positions and channel layout are explored against '
-                  'NumPy references.',
+                  'every input view; PadIfNeeded.update_params (with its position draws) realises max(extent, minimum) / the '
+                  'next multiple of the divisor with non-negative pads; F.resize returns exactly the requested shape for '
+                  'every order (SciPy-zoom extent model, validated voxel by voxel for order 0); Longest/SmallestMaxSize '
+                  'sizes and channel layout are explored against NumPy references.',
     'level_note': 'Trusted: as C02.',
 }
 
@@ -279,8 +283,10 @@ PROPS['C06'] = {
                   '(class table regenerated from the source, own mask paths resolved argument by argument); (2) for every '
                   'class whose array code is generated over the view model (flips, transpose, quarter turns, all crops, '
                   'PadIfNeeded in every border mode, Coarse/GridDropout) every voxel of the returned mask is an input '
-                  'voxel or the mask fill value, for every input, parameter value and shape, composable through pipelines. '
-                  'The SciPy-resampled paths (resize family, Rotate, ShiftScaleRotate, CropAndPad keep_size) and dtype '
+                  'voxel or the mask fill value, for every input, parameter value and shape, composable through pipelines; '
+                  '(3) for Resize / RandomScale the mask path copies input voxels whatever order the image uses, while any '
+                  'order >= 1 blends every voxel (SciPy-zoom model). '
+                  'The other SciPy-resampled paths (Longest/SmallestMaxSize, Rotate, ShiftScaleRotate, CropAndPad keep_size) and dtype '
                   'preservation are explored: all six image orders x label dtypes x sparse alphabets x masks / additional targets.',
     'level_note': 'Trusted: Coq kernel, translator, classtab extractor, view model of NumPy; SciPy order-0 behaviour explored only.',
 }
